@@ -304,4 +304,132 @@ pub(crate) mod verif_opmod {
     //@ desc="the empty object is not an operation"
     not_op_harness!(k_c02_ofm_empty, Value::Object(Map::new()));
     // (objects with two keys / unknown keys: BTreeMap-backed objects do not finish in CBMC; V:op_from_map covers them for all maps)
+
+    // =====================================================================================
+    // C04 / C08: Operation::evaluate / DataOperation::evaluate - every operand expression is evaluated exactly
+    // once, in order, against the data; the operator receives the outcomes in order, as distinct fresh values
+    // (so the pointer-identity shortcut of strict_eq cannot fire through the rule interface).
+    // =====================================================================================
+    pub(crate) static mut REC_LEN: usize = usize::MAX;
+    pub(crate) static mut REC_VAL: [u64; 4] = [0; 4];
+    pub(crate) static mut REC_PTR: [*const Value; 4] = [std::ptr::null(); 4];
+    pub(crate) static mut REC_DATA: *const Value = std::ptr::null();
+    fn rec_items(items: &Vec<&Value>) {
+        unsafe {
+            REC_LEN = items.len();
+            if items.len() > 0 {
+                REC_PTR[0] = items[0] as *const Value;
+                REC_VAL[0] = ev::fingerprint(items[0]);
+            }
+            if items.len() > 1 {
+                REC_PTR[1] = items[1] as *const Value;
+                REC_VAL[1] = ev::fingerprint(items[1]);
+            }
+            if items.len() > 2 {
+                REC_PTR[2] = items[2] as *const Value;
+                REC_VAL[2] = ev::fingerprint(items[2]);
+            }
+        }
+    }
+    fn rec_operator(items: &Vec<&Value>) -> Result<Value, Error> {
+        rec_items(items);
+        Ok(Value::Null)
+    }
+    fn rec_data_operator(data: &Value, items: &Vec<&Value>) -> Result<Value, Error> {
+        unsafe { REC_DATA = data as *const Value };
+        rec_items(items);
+        Ok(Value::Null)
+    }
+    /// `epat` bit i: operand i evaluates successfully; class New for even i, Raw for odd i
+    pub(crate) fn body_operation_evaluate(n: usize, epat: u32, data_op: bool) {
+        let u: [u64; 3] = [kani::any(), kani::any(), kani::any()];
+        let nodes = [MD::new(Value::Null), MD::new(Value::Null), MD::new(Value::Null)];
+        let outs = [
+            MD::new(Value::Number(Number::from(u[0]))),
+            MD::new(Value::Number(Number::from(u[1]))),
+            MD::new(Value::Number(Number::from(u[2]))),
+        ];
+        let data = MD::new(Value::Bool(true));
+        let mut parsed: Vec<Parsed> = Vec::with_capacity(3);
+        let mut i = 0;
+        while i < n {
+            let class = if (epat >> i) & 1 == 1 { if i % 2 == 0 { 1 } else { 2 } } else { 0 };
+            ev::register_num(&nodes[i], class, &*outs[i] as *const Value, u[i]);
+            parsed.push(Parsed::verif_from_value_stub(&nodes[i]).unwrap());
+            i += 1;
+        }
+        let op = Operator { symbol: "rec", operator: rec_operator, num_params: NumParams::Any };
+        let dop = DataOperator { symbol: "rec", operator: rec_data_operator, num_params: NumParams::Any };
+        let r = if data_op {
+            let o = MD::new(DataOperation { operator: &dop, arguments: parsed });
+            MD::new(o.evaluate(&data).map(|_| ()))
+        } else {
+            let o = MD::new(Operation { operator: &op, arguments: parsed });
+            MD::new(o.evaluate(&data).map(|_| ()))
+        };
+        kani::cover!(true, "returned");
+        // spec
+        let mut first_err = n;
+        let mut i = 0;
+        while i < n {
+            if (epat >> i) & 1 == 0 && first_err == n {
+                first_err = i;
+            }
+            i += 1;
+        }
+        let evaluated = if first_err < n { first_err + 1 } else { n };
+        assert!(ev::log_len() == evaluated, "each operand expression is evaluated exactly once, left to right, stopping at the first error");
+        let mut k = 0;
+        while k < evaluated {
+            let (node, d) = ev::log_at(k);
+            assert!(node == k && d == &*data as *const Value, "operands are evaluated in order against the data");
+            k += 1;
+        }
+        if first_err < n {
+            assert!(r.is_err() && unsafe { REC_LEN } == usize::MAX, "a failing operand must make the operation fail without running the operator");
+        } else {
+            assert!(r.is_ok() && unsafe { REC_LEN } == n, "the operator receives exactly one value per operand");
+            let mut k = 0;
+            while k < n {
+                assert!(unsafe { REC_VAL[k] } == u[k], "the operator receives the operands' values in order");
+                let mut j = 0;
+                while j < k {
+                    assert!(unsafe { REC_PTR[k] != REC_PTR[j] }, "C08: the values handed to an operator are distinct instances");
+                    j += 1;
+                }
+                assert!(unsafe { REC_PTR[k] } != &*outs[k] as *const Value, "C08: the values handed to an operator are fresh, never the caller's own");
+                k += 1;
+            }
+            if data_op {
+                assert!(unsafe { REC_DATA } == &*data as *const Value, "a data operator receives the data itself");
+            }
+        }
+    }
+    macro_rules! opeval_harness {
+        ($name:ident, $n:expr, $epat:expr, $data_op:expr) => {
+            #[cfg_attr(kani, kani::proof)]
+            #[cfg_attr(kani, kani::unwind(6))]
+            #[cfg_attr(kani, kani::stub(<serde_json::Value as std::clone::Clone>::clone, crate::verif_support::value_clone_shallow))]
+            #[cfg_attr(kani, kani::stub(crate::value::Parsed::evaluate, crate::value::Parsed::verif_evaluate_stub))]
+            #[cfg_attr(kani, kani::stub(std::fmt::format, crate::verif_support::fmt_stub))]
+            pub(crate) fn $name() {
+                body_operation_evaluate($n, $epat, $data_op);
+            }
+        };
+    }
+    //@ob name=C04.operation_evaluate.0 harness=k_c04_opeval_0 props=C04,C08,C01 strength=bounded bound="0 operands" fns=op::Operation::evaluate stubs=3 timeout=300 cutdrop=1 group=medium
+    //@ desc="Operation::evaluate with no operands runs the operator on an empty list"
+    opeval_harness!(k_c04_opeval_0, 0, 0, false);
+    //@ob name=C04.operation_evaluate.2 harness=k_c04_opeval_2 props=C04,C08,C01 strength=bounded bound="2 operands, both succeed (one fresh, one borrowed outcome); values symbolic" fns=op::Operation::evaluate stubs=3 timeout=300 cutdrop=1 group=medium
+    //@ desc="Operation::evaluate: each operand evaluated exactly once, in order, against the data; the operator gets the values in order as distinct fresh instances"
+    opeval_harness!(k_c04_opeval_2, 2, 3, false);
+    //@ob name=C04.operation_evaluate.3 harness=k_c04_opeval_3 props=C04,C08,C01 tier=thorough strength=bounded bound="3 operands, all succeed" fns=op::Operation::evaluate stubs=3 timeout=300 cutdrop=1 group=medium
+    //@ desc="Operation::evaluate with three operands"
+    opeval_harness!(k_c04_opeval_3, 3, 7, false);
+    //@ob name=C04.operation_evaluate.2err harness=k_c04_opeval_2err props=C04,C01 tier=thorough strength=bounded bound="2 operands, the first fails" fns=op::Operation::evaluate stubs=3 timeout=300 cutdrop=1 group=heavy
+    //@ desc="Operation::evaluate: a failing operand fails the operation, later operands are not evaluated, the operator does not run"
+    opeval_harness!(k_c04_opeval_2err, 2, 2, false);
+    //@ob name=C04.data_operation_evaluate.2 harness=k_c04_dopeval_2 props=C04,C01 strength=bounded bound="2 operands, both succeed" fns=op::DataOperation::evaluate stubs=3 timeout=300 cutdrop=1 group=medium
+    //@ desc="DataOperation::evaluate: operands evaluated once each, in order; the data operator receives the data and the values"
+    opeval_harness!(k_c04_dopeval_2, 2, 3, true);
 }
